@@ -294,6 +294,26 @@ func runRA(msg []byte) (ret string, r icmp_spoofer.Router, found bool) {
 	return ret, r, r.Addr.IP.IsValid()
 }
 
+// obsV4: the ICMPv6 message inside an IPv4 packet (protocol 58) from a LAN host, through Parse + ProcessPacket.
+func obsV4(msg []byte) (ret string) {
+	s := session()
+	h, _ := icmp_spoofer.New6(s)
+	fr := lib.MkEther(lib.HostMAC, hMACs[2], 0x0800, lib.MkIP4(netip.MustParseAddr("192.168.0.50"), lib.HostIP4, 58, 64, msg))
+	f, err := s.Parse(newRxBuf().load(fr))
+	if err != nil {
+		return "parse:" + errName(err)
+	}
+	raMu.Lock()
+	defer raMu.Unlock()
+	defer func() {
+		if e := recover(); e != nil {
+			ret = "panic"
+		}
+	}()
+	icmp_spoofer.VerifSetRepeat(0)
+	return errName(h.ProcessPacket(f))
+}
+
 func obsRA(proj string, msg []byte) string {
 	ret, r, found := runRA(msg)
 	if ret != "ok" {
@@ -317,6 +337,7 @@ func main() {
 	}
 	rng := r.Rand()
 	r.Register("ra", func(a []string) string { return obsRA(a[0], lib.UnHex(a[1])) })
+	r.Register("v4", func(a []string) string { return obsV4(lib.UnHex(a[0])) })
 	registerHunt(r)
 	if r.Replayed() {
 		return
@@ -357,6 +378,12 @@ func main() {
 	}
 	for _, c := range directedRAs() {
 		emit("directed", c)
+	}
+	// ICMPv6 messages carried by an IPv4 packet with protocol 58 (Parse classifies them as ICMPv6)
+	for _, t := range []byte{135, 200, 128, 136, 133} {
+		m := make([]byte, 24+8*rng.Intn(3))
+		m[0] = t
+		r.Do("v4", hx(m))
 	}
 	for i := 0; i < n; i++ {
 		class, msg := genRA(rng)
